@@ -15,7 +15,7 @@ namespace {
 using tp_t = std::chrono::system_clock::time_point;
 inline tp_t TP(int v) { return tp_t(std::chrono::system_clock::duration(v)); }
 
-constexpr int MAXS = 6;          // sleeps per history
+constexpr int MAXS = 8;          // sleeps per history
 constexpr int NIDS = 3;
 const char idtab[NIDS + 1] = {0, 0, 0, 0};
 inline scheduler::ident ID(int k) { return &idtab[k]; }
@@ -86,7 +86,7 @@ struct Model {
 extern "C" void h_manual() {
     vf_warmup();
     const int api = vf_choice(2);
-    const int nops = vf_choice(MAXS + 3);
+    const int nops = vf_choice(MAXS + 5);
     long base = vf_live_allocs();
     {
         Model m;
